@@ -129,7 +129,8 @@ def local_rewrites(term, v, env):
         for x in d[:i][:6]:
             yield term, x
         # shorter values of the same shape
-        if isinstance(v, (str, bytes)) and len(v) > 1:
+        if term.kind not in ('ENUMERATED', 'OID') and isinstance(v, (str, bytes)) and len(v) > 1:
+            # (an ENUMERATED name or a dotted OID cut short is not a value of the type any more)
             yield term, v[:len(v) // 2]
             yield term, v[:-1]
         if isinstance(v, tuple) and len(v) == 2 and isinstance(v[0], bytes) and v[1] > 1:
